@@ -56,8 +56,8 @@ def r1_gate_before_work(ctx):
             for l in flow._local_copies_back(b, p["l"], 6):
                 for bj, sj, dpl, src in b.defs.get(l, []):
                     if src[0] == "rv" and src[1]["k"] == "discr":
-                        names = {b.local_name(x) for x in flow._local_copies_back(b, src[1]["pl"]["l"], 6)}
-                        if "batch_config" in names and sw_cfg is None:
+                        tys = {b.locals[x]["ty"] for x in flow._local_copies_back(b, src[1]["pl"]["l"], 6)}
+                        if any(ty_.endswith("server::BatchRequestConfig") for ty_ in tys) and sw_cfg is None:
                             sw_cfg = (bi, t)
     if sw_cfg is None:
         raise AnchorLost("match on batch_config in handle_rpc_call")
@@ -272,7 +272,15 @@ def r3_append_discipline(ctx):
             t_true = other if "0" in arms else arms.get("1")
         R.check(t_true is not None and b.dominates(t_true, nt[0].bb), "C02.R3", "after-loop:empty-ack-only-when-empty", "the empty acknowledgement is chosen only when nothing was appended", "MethodResponse::notification() is not guarded by is_empty()", where(nt[0]))
         # and by got_notification
-        gn = b.locals_named("got_notification")
+        # the "a notification was seen" flag: a bool local set to true only in the notification arm of the loop
+        gn = []
+        for l, defs in b.defs.items():
+            if b.locals[l]["ty"] != "bool" or not b.locals[l].get("user"):
+                continue
+            trues = [bi_ for bi_, si_, dpl_, src_ in defs if src_[0] == "rv" and src_[1]["k"] == "use" and (op_const(src_[1]["op"]) or {}).get("bool") is True]
+            falses = [bi_ for bi_, si_, dpl_, src_ in defs if src_[0] == "rv" and src_[1]["k"] == "use" and (op_const(src_[1]["op"]) or {}).get("bool") is False]
+            if trues and falses and notifs and all(b.can_reach(tb_, notifs[0].bb) and not b.can_reach(tb_, calls[0].bb if calls else -1, avoid=[nx.bb]) for tb_ in trues):
+                gn.append(l)
         okg = False
         for l in gn:
             for sb, arms, other in flow.switch_on(b, l):
